@@ -262,15 +262,20 @@ def parse_segments(stream):
 
 
 def build_segment(identifier, messages, version=(1, 0, 5), extra_info_fields=b""):
-    """messages: list of (type, bytes). Returns the segment bytes."""
+    """messages: list of (type, bytes) or, for a merge patch, (0, bytes, base_message_index, explicit): a segment holding a patch
+    carries should_merge. Returns the segment bytes."""
     header = bytearray()
     header += b"\x08" + write_varint(identifier)
-    for mtype, body in messages:
+    for mtype, body, *patch in messages:
         mi = bytearray()
         mi += b"\x08" + write_varint(mtype)
         packed = b"".join(write_varint(v) for v in version)
         mi += b"\x12" + write_varint(len(packed)) + packed
         mi += b"\x18" + write_varint(len(body))
         mi += extra_info_fields
+        if patch and (patch[0] or patch[1]):
+            mi += b"\x38" + write_varint(patch[0])
         header += b"\x12" + write_varint(len(mi)) + bytes(mi)
-    return write_varint(len(header)) + bytes(header) + b"".join(b for _, b in messages)
+    if any(len(m) > 2 for m in messages):
+        header += b"\x18\x01"
+    return write_varint(len(header)) + bytes(header) + b"".join(m[1] for m in messages)
